@@ -625,11 +625,24 @@ def A7_determinism(rep, flow: Flow, roots):
 
 def nondet_sites(prog, f):
     loc = prog._locals(f)
+    local_imports = {}
+    for n in ast.walk(f.node):
+        if isinstance(n, ast.Import):
+            for a in n.names:
+                local_imports[a.asname or a.name.split(".")[0]] = a.name if a.asname else a.name.split(".")[0]
+        elif isinstance(n, ast.ImportFrom) and n.level == 0:
+            for a in n.names:
+                local_imports[a.asname or a.name] = f"{n.module}.{a.name}"
     for n in ast.walk(f.node):
         if isinstance(n, ast.Call):
             fn = n.func
             dotted = None
-            if isinstance(fn, ast.Name) and fn.id not in loc:
+            if isinstance(fn, ast.Name) and fn.id in local_imports:
+                dotted = local_imports[fn.id]
+            elif isinstance(fn, ast.Attribute) and ast.unparse(fn).split(".")[0] in local_imports:
+                parts = ast.unparse(fn).split(".")
+                dotted = local_imports[parts[0]] + "." + ".".join(parts[1:])
+            elif isinstance(fn, ast.Name) and fn.id not in loc:
                 r = prog.lookup_global(f.module, fn.id)
                 if r and r[0] == "external":
                     dotted = r[1]
